@@ -378,9 +378,10 @@ func (n *Node) Exec(b *Block, path Path, hook Hook) (res *Result) {
 	if n.CommitLock != nil {
 		n.CommitLock.Unlock()
 	}
-	res.AppHash = cm.Data
+	// the application returns a slice into its own state root array: copy it
+	res.AppHash = append([]byte{}, cm.Data...)
 	n.Height = height
-	n.AppHash = cm.Data
+	n.AppHash = append([]byte{}, cm.Data...)
 	n.applyValidatorUpdates(eb.ValidatorUpdates)
 	return res
 }
